@@ -132,11 +132,39 @@ def _count(ev, events, src, fam, fname, depth=0):
                     elif not counts <= set([0]):
                         raise _Bad("per-element coverage inside the index loop at %s is %s (expected exactly 1)" % (Q.site_of(ev, L), sorted(counts)), Q.site_of(ev, L))
                     continue
+                via = _through(ev, L.source, src) if L.source is not None and not hasattr(src, "match_term") else None
+                if via and Q.calls_in([e], fam, deep=True):
+                    # chunks of the source, a window over it, a zip with something else ..: whether every element comes by
+                    # exactly once is a property of that library call, which the analysis does not know
+                    raise _Bad("elements of the source reach %s through `%s` (%s), which is not known to visit every element exactly once, front to back" % (
+                        fname, "`, `".join(via), Q.site_of(ev, L)), Q.site_of(ev, L))
                 for it in L.iters:
                     n, sh, ss = _count(ev, it.path.events, src, fam, fname, depth + 1)
                     if n:
                         raise _Bad("%s is called on the source inside a loop over something else (%s)" % (fname, Q.site_of(ev, L)), Q.site_of(ev, L))
     return total, shape, sites
+
+
+def _through(ev, t, src):
+    """The library calls (other than plain views) that stand between an iterated term and the source it is derived from through
+    their first argument; None if the term is not derived from the source that way."""
+    names = []
+    for _ in range(32):
+        if not isinstance(t, tuple) or not t:
+            return None
+        if t[0] == "cast":
+            t = t[2]
+        elif t[0] == "call":
+            c = ev.callee(t[1])
+            if c is None or c.local or not t[2]:
+                return None
+            if c.name not in TRANSPARENT:
+                names.append(c.name)
+            t = t[2][0]
+        else:
+            b, p = sroot(ev, t)
+            return names if (names and src.exact(b, p, ev)) else None
+    return None
 
 
 def _index_loop(ev, L, src):
